@@ -65,9 +65,9 @@ def show(b, only_calls=False):
         elif k == "yield": print("    yield %s -> resume bb%s drop bb%s // L%s %s" % (op(t["v"]), t["resume"], t["drop"], t["line"], t.get("exp", "")))
         elif k == "assert": print("    assert(%s == %s, %s) -> bb%s // L%s" % (op(t["c"]), t["expected"], t["msg"], t["t"], t["line"]))
         else: print("    %s %s" % (k, {x: t[x] for x in t if x not in ("k", "line", "exp")}))
-ap = argparse.ArgumentParser(); ap.add_argument("sub"); ap.add_argument("--cfg", default="cfgA"); ap.add_argument("--crate", default="resolvo"); ap.add_argument("--calls", action="store_true"); ap.add_argument("--list", action="store_true")
+ap = argparse.ArgumentParser(); ap.add_argument("sub"); ap.add_argument("--cfg", default="cfgA"); ap.add_argument("--crate", default="resolvo"); ap.add_argument("--calls", action="store_true"); ap.add_argument("--list", action="store_true"); ap.add_argument("--dir", default=None)
 a = ap.parse_args()
-F = Facts(gen.generate(a.cfg))
+F = Facts(a.dir or gen.generate(a.cfg))
 for b in F.crate(a.crate).bodies:
     if a.sub in b.path:
         if a.list: print(b.path, b.kind, b.file, b.line)
